@@ -28,6 +28,7 @@ import (
 	"sync"
 	"syscall"
 	"testing"
+	"time"
 
 	"git.arvados.org/arvados.git/sdk/go/arvados"
 	"git.arvados.org/arvados.git/sdk/go/arvadosclient"
@@ -1014,6 +1015,7 @@ type c17Exp struct {
 	visits    int
 	tooBig    bool
 	usedLink  bool
+	labels    map[string]bool
 	usedMnt   bool
 }
 
@@ -1051,9 +1053,12 @@ func (e *c17Exp) addMount(dest string, m *c17Mount, rest string, viaLink bool) {
 	}
 }
 
-func (e *c17Exp) mountsBelow(dest, ctr string) {
+func (e *c17Exp) mountsBelow(dest, ctr string, depth int) {
 	for _, m := range e.sc.Mounts {
 		if strings.HasPrefix(m.Ctr, ctr+"/") {
+			if depth > 0 && !m.Exclude {
+				e.labels["via-link:collection-mounted-beneath-link-target"] = true
+			}
 			e.addMount(dest+m.Ctr[len(ctr):], m, "", false)
 		}
 	}
@@ -1079,11 +1084,11 @@ func (e *c17Exp) walk(dest, ctr string, depth int, stack []string, below bool) {
 	case c17InColl:
 		e.addMount(dest, e.sc.Mounts[idx], rest, depth > 0)
 		if below {
-			e.mountsBelow(dest, ctr)
+			e.mountsBelow(dest, ctr, depth)
 		}
 	case c17InOut:
 		if below {
-			e.mountsBelow(dest, ctr)
+			e.mountsBelow(dest, ctr, depth)
 		}
 		n := e.sc.lookup(rest)
 		if n == nil {
@@ -1113,6 +1118,9 @@ func (e *c17Exp) walk(dest, ctr string, depth int, stack []string, below bool) {
 				for _, s := range e.sc.Secrets {
 					if s.Ctr == cctr {
 						skip = true
+						if depth > 0 {
+							e.labels["via-link:secret-inside-link-target-dir"] = true
+						}
 					}
 				}
 				for _, m := range e.sc.Mounts {
@@ -1133,7 +1141,7 @@ func (e *c17Exp) walk(dest, ctr string, depth int, stack []string, below bool) {
 }
 
 func c17Expect(sc *c17Scenario) *c17Exp {
-	e := &c17Exp{sc: sc, Files: map[string]c17ExpFile{}, Dirs: map[string]bool{}, hostEmpty: map[string]bool{}}
+	e := &c17Exp{sc: sc, Files: map[string]c17ExpFile{}, Dirs: map[string]bool{}, hostEmpty: map[string]bool{}, labels: map[string]bool{}}
 	e.walk("", sc.CtrOut, 0, nil, true)
 	if e.maxDepth > limitFollowSymlinksDocumented && len(e.mustFail) == 0 {
 		e.mayFail = append(e.mayFail, fmt.Sprintf("finite chain of %d nested links (more than %d)", e.maxDepth, limitFollowSymlinksDocumented))
@@ -1381,6 +1389,9 @@ func c17Check(t c17TB, sc *c17Scenario) {
 	for l := range sc.Labels {
 		labels = append(labels, l)
 	}
+	for l := range exp.labels {
+		labels = append(labels, l)
+	}
 	labels = append(labels, outcome)
 	if len(exp.mustFail) > 0 {
 		labels = append(labels, "expect:must-fail")
@@ -1453,7 +1464,7 @@ func c17Check(t c17TB, sc *c17Scenario) {
 	stats.InfoAdd("symlinks_total", int64(nlinks))
 	stats.InfoAdd("expected_files_compared_total", int64(len(exp.Files)))
 	if nontrivial && stats.WantSample(outcome) {
-		stats.Sample(outcome, map[string]interface{}{"scenario": desc, "manifest": res.text, "error": fmt.Sprint(res.err), "must_fail": exp.mustFail, "may_fail": exp.mayFail})
+		stats.Sample(outcome, map[string]interface{}{"scenario": desc, "manifest": res.text, "error": fmt.Sprint(res.err), "panic": fmt.Sprint(res.panicked), "must_fail": exp.mustFail, "may_fail": exp.mayFail})
 	}
 }
 
@@ -1595,11 +1606,29 @@ func c17InflightClear() {
 	}
 }
 
+// c17SweepStale removes scratch trees left in /dev/shm by an earlier process
+// that crashed (a stack overflow runs no deferred cleanup).
+func c17SweepStale() {
+	ents, err := os.ReadDir("/dev/shm")
+	if err != nil {
+		return
+	}
+	for _, e := range ents {
+		if !strings.HasPrefix(e.Name(), "verif-c17-") {
+			continue
+		}
+		if fi, err := e.Info(); err == nil && time.Since(fi.ModTime()) > time.Hour {
+			os.RemoveAll("/dev/shm/" + e.Name())
+		}
+	}
+}
+
 func TestVerifC17CopyOutput(t *testing.T) {
 	defer stats.Flush()
 	// Legitimate walks nest a few dozen frames; a small stack limit makes a
 	// runaway recursion die quickly instead of eating memory first.
 	debug.SetMaxStack(8 << 20)
+	c17SweepStale()
 	if rp := os.Getenv("VERIF_REPLAY"); strings.HasSuffix(rp, ".json") {
 		buf, err := os.ReadFile(rp)
 		if err != nil {
